@@ -26,7 +26,7 @@ func init() {
 			"S5: WriteUint/WriteBytes/MarshalBytes encode the length through the one varint encoder followed by the body; the size functions are WritableUintSize(len)+len; the scratch array holds the longest varint; string forms go through the cast, a shared generic implementation, or the same formula. " +
 			"S6: every exit reachable with newBuf=true returns a fresh copy (container.SliceCopy, or make+copy), and SliceCopy's result is a freshly made slice. " +
 			"S7: every Marshal* store into the destination (also in a private function the buffer is handed to) is dominated by a length guard on the index/window and every copy has a destination of exactly len(src) elements or one the guards show to be no shorter, so a short buffer is an error and never a silent truncation. " +
-			"S8: the varint decoder rejects only on exhausted input or on a counter guard that cannot fire while groups an encoder can produce are still to be read (threshold reasoning on the induction variables).",
+			"S8: the varint decoder rejects only on exhausted input or on a counter guard that cannot fire while groups an encoder can produce are still to be read (threshold reasoning on the induction variables). S9: a fixed-width coder refuses a buffer only when it is shorter than the N bytes it codes (a buffer of exactly N bytes - what the encoder produced - is accepted).",
 		NotDecided: "the round-trip equality decode(encode(x))=x as a value statement; the shift/or arithmetic inside the loops.",
 	})
 	register(&Check{
@@ -40,7 +40,7 @@ func init() {
 			"R3: a wire length (result of a varint/fixed decoder, also when kept in a local struct) reaches arithmetic, slice bounds, indices or make sizes only where guard facts bound it: an unsigned comparison against a len(buf)-derived operand, or sign test plus signed bound after the conversion; a window of t bytes is cut only after t was compared with what remains of the sliced value. " +
 			"R4: every failure exit reports 0 consumed bytes (or the count of the failing callee, 0 under its own R4). " +
 			"R5: a returned slice/string derives from a sub-slice of the input or from a copy (SliceCopy, make+copy) of one. " +
-			"R6: the consumed count of a success exit is a guarded constant, an expression the facts and loop invariants place in [0,len(buf)], a callee count, the end offset of a window cut from buf under R3, or an external decoder's count under an n>0 guard.",
+			"R6: the consumed count of a success exit is a guarded constant, an expression the facts and loop invariants place in [0,len(buf)], a callee count, the end offset of a window cut from buf under R3, or an external decoder's count under an n>0 guard. R3 also: a byte of the input used as a number (a one-byte length header) is a wire length where it bounds a slice. R7: private functions reached from the decoders (error constructors, formatters) index fixed-size tables in range, by interval evaluation of the index (constants, + - / by constants, widening conversions, bits.Len as a monotone function, refined by dominating comparisons with constants).",
 		NotDecided: "nothing material about panics on the idioms recognised; an unrecognised index/bound expression is reported as undecided (CHECK-ERROR), not guessed. 'Sub-range' is established as provenance, not arithmetic.",
 	})
 }
